@@ -116,7 +116,9 @@ impl LsmTree {
         let compaction = {
             let _mutex = self.compaction.lock().unwrap();
             let version = self.take_snapshot();
-            version.version.next_compaction()
+            let compaction = version.version.next_compaction();
+            self.verif_proto.selected(compaction.as_ref());
+            compaction
         };
         let Some(compaction) = compaction else {
             return Ok(None);
@@ -132,6 +134,7 @@ impl LsmTree {
         if let Err(err) = self.perform_compaction(compaction.clone()) {
             let _mutex = self.compaction.lock().unwrap();
             let version = self.take_snapshot();
+            self.verif_proto.released(&compaction);
             let _ = version.version.release_compaction(compaction);
             return Err(err);
         }
